@@ -56,6 +56,9 @@ def run(rep):
     x2(rep, w)
     x3(rep, w)
     x4(rep, w)
+    import c04
+    c04.b2w(rep, w, 'X6')     # handler addresses (catch_ip / finally_ip) are computed from widened operands
+    x7(rep, w)
 
 
 def x1(rep, w):
@@ -78,7 +81,7 @@ def x1(rep, w):
             continue
         src = err_sources(w, f)
         seen[fp] = src
-        if fp in SANCTIONED:
+        if fp == VM + 'unwind_stack':
             continue
         for (kind, x) in src:
             if kind == 'prop':
@@ -95,12 +98,11 @@ def x1(rep, w):
             r.check(bool(pops), 'unwind_stack consults the handler stack', 'unwind_stack no longer pops a handler before giving up', f.loc())
             continue
         if fp == VM + 'try_handle_error':
+            # must itself only forward what (transitively) comes from unwind_stack: checked like any other member below, plus it
+            # must reach unwind_stack at all
             f = w.fns[fp]
-            tail = {x for (k, x) in seen[fp] if k == 'prop'}
-            fresh = {(k, x) for (k, x) in seen[fp] if k != 'prop'}
-            r.check(tail == {VM + 'unwind_stack'} and not fresh, 'try_handle_error returns only unwind_stack\'s verdict',
-                    'try_handle_error can return an Err that did not come from unwind_stack: %s' % sorted(seen[fp]), f.loc())
-            continue
+            reaches = VM + 'unwind_stack' in w.reach_from({fp})
+            r.check(reaches, 'try_handle_error reaches unwind_stack', 'try_handle_error no longer hands the error to unwind_stack', f.loc())
         bad = [(k, x) for (k, x) in seen[fp] if k != 'prop' or (x not in w.fns)]
         parents = sorted({a for (a, b) in edges if b == fp}) or ['(entry)']
         f = w.fns[fp]
@@ -242,3 +244,67 @@ def x4(rep, w):
     u = w.require_fn(VM + 'unwind_stack', 'C08')
     pops = [bi for bi, t in u.calls() if callee_name(t) == 'yarel::object::ObjFiber::pop_exc_handler']
     r.check(len(pops) == 1, 'unwind_stack pops exactly one handler', 'unwind_stack pops %d handlers' % len(pops), u.loc())
+
+
+def x7(rep, w):
+    """once try_handle_error / unwind_stack has returned Ok the machine state (ip, stack, frames) belongs to the handler that was
+    found: the opcode handler that raised must return without touching it again"""
+    c = w.yarel
+    tab = {e['fn']: e for e in c01.table('c08_after_unwind_ok.json')}
+    r = rep.rule('X7', 'after a raised error was delivered to a handler (try_handle_error / unwind_stack returned Ok) the raising function '
+                 'does nothing more to the machine state', floor=20)
+
+    def mutating(f, t):
+        n = callee_name(t)
+        if n is None:
+            return 'indirect call' if 'ind' in t['f'] else None
+        g = w.fns.get(n)
+        if g is None or g.crate is not c or g.argc < 1:
+            return None
+        a0 = g.crate.tstr(g.local_ty(1))
+        if a0.startswith('&mut vm::Vm') or a0.startswith('&mut object::ObjFiber') or a0.startswith('&mut stack::Stack'):
+            return n
+        return None
+    used = set()
+    for f in sorted(c.fns.values(), key=lambda x: x.path):
+        if not f.path.startswith(VM) or f.path in SANCTIONED:
+            continue
+        sites = [bi for bi, t in f.calls() if callee_name(t) in SANCTIONED]
+        if not sites:
+            continue
+        bad = None
+        for sb in sites:
+            seen = set()
+            stack = [f.blocks[sb]['t'].get('to')]
+            while stack and bad is None:
+                b = stack.pop()
+                if b is None or b in seen:
+                    continue
+                seen.add(b)
+                t = f.blocks[b]['t']
+                if t['t'] == 'call':
+                    m = mutating(f, t)
+                    if m and callee_name(t) not in SANCTIONED:
+                        bad = (sb, b, m)
+                        break
+                # direct stores through self
+                for s in f.blocks[b]['s']:
+                    d = s.get('d')
+                    if d and d.get('p') and d['l'] == 1 and d['p'][0] == '*':
+                        bad = (sb, b, 'store to Vm.%s' % [e.get('n') for e in d['p'] if isinstance(e, dict)][0])
+                stack.extend(f.succs()[b])
+            if bad:
+                break
+        if bad:
+            if f.path in tab:
+                used.add(f.path)
+                r.ok('%s (listed: %s)' % (f.path, tab[f.path]['why']), sample=False)
+            else:
+                r.bad(f.path, 'after %s returned Ok (the error was delivered to a handler and ip/stack now belong to it) the function still '
+                      'runs %s: it corrupts the handler\'s frame' % (callee_name(f.blocks[bad[0]]['t']).rsplit('::', 1)[-1], bad[2]),
+                      f.loc(f.blocks[bad[1]]['t'].get('sp')))
+        else:
+            r.ok(f.path)
+    for k in tab:
+        if k not in used:
+            r.note('listed function not needed on this tree: ' + k)
